@@ -58,6 +58,8 @@ pub struct Compiled {
     /// name -> (regex, split?)
     patterns: HashMap<String, (regex::Regex, bool)>,
     pub columns: Vec<(Source, String, String, Option<Modifier>)>,
+    /// further modifiers per column, set through the public ColumnOptions fields (the grammar takes one modifier per column)
+    pub extra: Vec<Vec<Modifier>>,
     has_json: bool,
 }
 
@@ -88,17 +90,58 @@ pub fn compile(def: &TableDef) -> Option<Compiled> {
             }
         }
     }
-    Some(Compiled { patterns, columns, has_json })
+    let extra = vec![Vec::new(); columns.len()];
+    Some(Compiled { patterns, columns, extra, has_json })
 }
 
-fn default_of(modifier: &Option<Modifier>) -> V {
-    match modifier {
-        Some(Modifier::Default(E::Int(i))) => V::Int(*i),
-        Some(Modifier::Default(E::Real(s))) => V::Real(s.parse().unwrap_or(0.0)),
-        Some(Modifier::Default(E::Str(s))) => V::Text(s.clone()),
-        Some(Modifier::Default(E::True)) => V::Bool(true),
-        Some(Modifier::Default(E::False)) => V::Bool(false),
-        _ => V::Null,
+fn default_of(mods: &[&Modifier]) -> V {
+    for m in mods {
+        match m {
+            Modifier::Default(E::Int(i)) => return V::Int(*i),
+            Modifier::Default(E::Real(s)) => return V::Real(s.parse().unwrap_or(0.0)),
+            Modifier::Default(E::Str(s)) => return V::Text(s.clone()),
+            Modifier::Default(E::True) => return V::Bool(true),
+            Modifier::Default(E::False) => return V::Bool(false),
+            _ => {}
+        }
+    }
+    V::Null
+}
+
+/// Sets one option of a real column definition through its public fields.
+pub fn set_option(column: &mut sqlgrep::data_model::ColumnDefinition, m: &Modifier) -> bool {
+    use sqlgrep::model::{Float, Value};
+    match m {
+        Modifier::NotNull => column.options.nullable = false,
+        Modifier::Trim => column.options.trim = true,
+        Modifier::Convert => column.options.convert = true,
+        Modifier::Microseconds => column.options.microseconds = true,
+        Modifier::Default(e) => {
+            column.options.default_value = Some(match e {
+                E::Int(i) => Value::Int(*i),
+                E::Real(s) => Value::Float(Float(s.parse().unwrap_or(0.0))),
+                E::Str(s) => Value::String(s.clone()),
+                E::True => Value::Bool(true),
+                E::False => Value::Bool(false),
+                _ => return false,
+            })
+        }
+    }
+    true
+}
+
+/// Sets further options of a column through the public fields of the real definition and records them for the model.
+/// (Only combinations whose meaning follows from the single modifiers: NOT NULL, TRIM, CONVERT and a DEFAULT of the column's own type.)
+pub fn apply_extra(def: &mut sqlgrep::data_model::TableDefinition, compiled: &mut Compiled, extras: &[(usize, Modifier)]) {
+    for (ci, m) in extras {
+        let (Some(column), Some(slot)) = (def.columns.get_mut(*ci), compiled.extra.get_mut(*ci)) else { continue };
+        if compiled.columns[*ci].3.as_ref().map(std::mem::discriminant) == Some(std::mem::discriminant(m)) || slot.iter().any(|x| std::mem::discriminant(x) == std::mem::discriminant(m)) {
+            continue;
+        }
+        if !set_option(column, m) {
+            continue;
+        }
+        slot.push(m.clone());
     }
 }
 
@@ -345,8 +388,9 @@ pub fn model_extract(c: &Compiled, line: &str) -> ModelRow {
     };
     let ctx = LineCtx { line, captures, splits, json };
     let mut cells = Vec::new();
-    for (source, _name, ty, modifier) in &c.columns {
-        let default = default_of(modifier);
+    for (ci, (source, _name, ty, modifier)) in c.columns.iter().enumerate() {
+        let mods: Vec<&Modifier> = modifier.iter().chain(c.extra[ci].iter()).collect();
+        let default = default_of(&mods);
         let mut cell = match source {
             // (an array column with one listed group is an array of one element)
             Source::Groups(refs) if refs.len() == 1 && !ty.ends_with("[]") => single(&ctx, &refs[0].0, refs[0].1, ty, default),
@@ -368,7 +412,7 @@ pub fn model_extract(c: &Compiled, line: &str) -> ModelRow {
                         Cell::Val(V::Array(elems))
                     }
                 } else if ty == "timestamp" {
-                    timestamp(&ctx, refs, matches!(modifier, Some(Modifier::Microseconds)), default)
+                    timestamp(&ctx, refs, mods.iter().any(|m| matches!(m, Modifier::Microseconds)), default)
                 } else {
                     // several groups for a scalar column: not documented
                     Cell::Any
@@ -383,7 +427,7 @@ pub fn model_extract(c: &Compiled, line: &str) -> ModelRow {
                         None => Cell::Val(default),
                         Some(doc) => {
                             let hits = json_walk(doc, path);
-                            let convert = matches!(modifier, Some(Modifier::Convert));
+                            let convert = mods.iter().any(|m| matches!(m, Modifier::Convert));
                             let mut options: Vec<Cell> = hits
                                 .into_iter()
                                 .map(|h| match h {
@@ -403,13 +447,14 @@ pub fn model_extract(c: &Compiled, line: &str) -> ModelRow {
                 }
             }
         };
-        if matches!(modifier, Some(Modifier::Trim)) {
+        if mods.iter().any(|m| matches!(m, Modifier::Trim)) {
             cell = match cell {
                 Cell::Val(V::Text(s)) => Cell::Val(V::Text(s.trim().to_string())),
+                Cell::OneOf(vs) => Cell::OneOf(vs.into_iter().map(|v| if let V::Text(s) = v { V::Text(s.trim().to_string()) } else { v }).collect()),
                 other => other,
             };
         }
-        if matches!(modifier, Some(Modifier::NotNull)) {
+        if mods.iter().any(|m| matches!(m, Modifier::NotNull)) {
             match cell.is_null() {
                 Some(true) => return ModelRow::Dropped,
                 Some(false) => {}
